@@ -1,2 +1,150 @@
-(* props/C04.v — placeholder while the proofs are being written *)
-Require Import Aiuti.Batcher.
+(* props/C04.v — C04: the batcher returns to each caller exactly its own outcome,
+   and always answers.  ONLY theorem statements about the executable macro-step
+   model coq/theories/Batcher.v ([run c evs] = (observations per macro step, final
+   state)), each closed by a lemma of BatcherProps.v (invariants in BatcherInv.v),
+   with Print Assumptions beneath, and non-vacuity Examples at the end.
+
+   Quantification: ALL configurations with max_batch_size >= 1 and
+   max_concurrent_batches >= 1 ([cfg_ok]) and ALL event lists: calls, bursts,
+   chained calls (a task calling again in the continuation of its answer), time,
+   batch-function yields (any key, any order, values and Exception values,
+   repeated and unknown keys) / raises / returns, SetMax (>= 1, [ev_ok]).  For
+   C04 the lists contain no [Cancel] ([no_cancel evs := forall i, ~ In (Cancel i) evs]);
+   props/C09.v lifts that.
+
+   Vocabulary (BatcherInv.v / BatcherProps.v):
+   [blog_of b (g_blog s)]  the effective events of the batch function of batch b
+                           (ghost log; appended by BYield/BRaise/BFinish of a running b);
+   [produced l ks k o]     log l decides outcome o for key k: l = pre ++ ev :: post, k is
+                           not yielded in pre, and ev is: the yield (k, Val v) for Ret v; the
+                           yield (k, ExcVal e) for YieldedExc e; the raise of e for RaisedExc e;
+                           the return for Missing; a yield of a key that is not in the batch
+                           (ks) or was already yielded, for ProtocolErr (the KeyError of
+                           futs.pop, delivered like a batch failure).  Never for Cancelled/LibExc;
+   [outcome_from_batch s cl o]  the item carrying cl's future (same key, same future) is in
+                           a started batch b and [produced (log of b) (keys of b) (key of cl) o]. *)
+From Coq Require Import List Arith NArith Bool.
+Import ListNotations.
+Require Import Aiuti.Case_Batcher Aiuti.Case_Batcher_Sound Aiuti.Batcher Aiuti.BatcherLimits Aiuti.BatcherTime Aiuti.BatcherInv Aiuti.BatcherProps.
+
+(* Each caller gets exactly its own outcome.  If the trace says caller i completed
+   with outcome o, then caller i's key is the key of its call, the item that carries
+   its future was handed to the batch function in exactly one batch, and o is what
+   that batch's function produced FOR THAT KEY: the first value yielded for the key
+   is returned, a yielded Exception value is raised, an exception raised by the
+   batch function reaches it only while its key was still unanswered, a batch that
+   returns without the key gives Missing — never a value or exception yielded for
+   another key, whatever the order of the yields.  (o = Cancelled and LibExc are
+   impossible without Cancel events.) *)
+Theorem own_outcome :
+  forall c evs, cfg_ok c -> Forall ev_ok evs -> no_cancel evs ->
+  forall i o t, In (CallerDone i o t) (concat (fst (run c evs))) ->
+  let s := snd (run c evs) in
+  exists cl, nth_error (callers s) i = Some cl /\ cl_st cl = Some o /\
+             cl_key cl = key_of (cl_arg cl) (cl_ko cl) /\ outcome_from_batch s cl o.
+Proof. exact own_outcome_nocancel_lemma. Qed.
+Print Assumptions own_outcome.
+
+(* "the batch that carried the item of c's future" is unique: two started batches
+   holding items of the same future are the same batch (and the same item). *)
+Theorem batch_of_unique :
+  forall c evs, cfg_ok c -> Forall ev_ok evs ->
+  let s := snd (run c evs) in
+  forall e1 e2 it1 it2, In e1 (g_started s) -> In e2 (g_started s) -> In it1 (st_items e1) -> In it2 (st_items e2) ->
+    it_fid it1 = it_fid it2 -> e1 = e2 /\ it1 = it2.
+Proof. exact batch_of_unique_lemma. Qed.
+Print Assumptions batch_of_unique.
+
+(* Always answered, part 1 (state invariant, after any event list): a caller that is
+   still waiting waits for a future that is pending, and the item of that future is in
+   the open batch, in a batch queued on the semaphore, or in a running batch whose futs
+   still maps the caller's key to that future — nobody waits for something the batcher
+   has lost track of. *)
+Theorem always_answered_inv :
+  forall c evs, cfg_ok c -> Forall ev_ok evs ->
+  let s := snd (run c evs) in
+  forall cl, In cl (callers s) -> cl_st cl = None ->
+    is_done s (cl_fid cl) = false /\
+    exists it, In it (g_items s) /\ it_key it = cl_key cl /\ it_fid it = cl_fid cl /\ located s it.
+Proof. exact always_answered_inv_lemma. Qed.
+Print Assumptions always_answered_inv.
+
+(* Always answered, part 2: when the batch function of a running batch b returns
+   (BFinish) or raises (BRaise), every item of b is answered in that very step and no
+   caller of b is left waiting.  Together with props/C10.v [dispatch_deadline] (an item
+   reaches a batch by last-arrival + batch_timeout, a batch starts when a slot frees)
+   this is "always answers", provided the batch function itself ends — the
+   environment's obligation. *)
+Theorem batch_end_answers :
+  forall c evs b e, cfg_ok c -> Forall ev_ok evs -> (e = BFinish b \/ exists x, e = BRaise b x) ->
+  let s := snd (run c evs) in
+  forall B, find_batch s b = Some B ->
+  let s' := snd (run c (evs ++ [e])) in
+  (forall it, In it (b_items B) -> is_done s' (it_fid it) = true) /\
+  (forall cl it, In cl (callers s') -> In it (b_items B) -> cl_fid cl = it_fid it -> cl_st cl <> None).
+Proof. exact batch_end_answers_lemma. Qed.
+Print Assumptions batch_end_answers.
+
+(* No background task of the batcher ever ends with an exception. *)
+Theorem no_task_died :
+  forall c evs, cfg_ok c -> Forall ev_ok evs -> ~ In TaskDied (concat (fst (run c evs))).
+Proof. exact no_task_died_lemma. Qed.
+Print Assumptions no_task_died.
+
+(* Monitor soundness, PARTIAL.  The trace monitor ok_C04 (Case_Batcher.v) that judges
+   the implementation's observed trace is independent of the model.  Proved here:
+   acceptance implies that no TaskDied was observed and that no caller completes
+   twice within a macro step.  NOT proved as a theorem (full statement: "ok_C04 accepts
+   iff the observed trace satisfies own_outcome/always_answered read on the script"):
+   the conjuncts that compare each completion with the outcome the script makes the
+   batch function produce for the caller's key (late_expected / imm_ok04) and the
+   final no-Hang rule are decided by the monitor's own specification state; they are
+   tied to the theorems above through the correspondence [agree] on every case. *)
+Theorem monitor_sound_partial :
+  forall c evs observed w, ok_C04 (BCase c evs observed w) = true ->
+  forall os, In os observed -> ~ In TaskDied os /\ NoDup (map (fun d => fst (fst d)) (dones_of os)).
+Proof. exact ok_C04_sound. Qed.
+Print Assumptions monitor_sound_partial.
+
+(* ---- non-vacuity ------------------------------------------------------------------- *)
+
+Definition ex_cfg := mkcfg 3 1 10%N 0%N.
+(* keys 0,1,2 in one batch; yields in reverse order: 2 -> value 7, 0 -> Exception 1, then
+   the function returns without key 1; a second batch raises *)
+Definition ex_evs :=
+  [Burst [(0, None); (1, None); (2, None); (3, None)];
+   BYield 0 2 (Val 7); BYield 0 0 (ExcVal 1); BFinish 0; Advance 11; BRaise 1 2].
+
+Example ex_hyps : cfg_ok ex_cfg /\ Forall ev_ok ex_evs /\ no_cancel ex_evs.
+Proof.
+  split; [split; simpl; auto|]. split; [repeat constructor|].
+  intros i H. simpl in H. repeat (destruct H as [H|H]; [discriminate|]). exact H.
+Qed.
+
+Example ex_trace :
+  map (filter is_done_obs) (fst (run ex_cfg ex_evs)) =
+  [[]; [CallerDone 2 (Ret 7) 0%N]; [CallerDone 0 (YieldedExc 1) 0%N]; [CallerDone 1 Missing 0%N]; [];
+   [CallerDone 3 (RaisedExc 2) 11%N]].
+Proof. vm_compute. reflexivity. Qed.
+
+(* a waiting caller whose item is in a running batch (hypotheses of always_answered_inv) *)
+Example ex_waiting :
+  let s := snd (run ex_cfg (firstn 2 ex_evs)) in
+  exists cl, In cl (callers s) /\ cl_st cl = None /\ cl_key cl = 1 /\ length (running s) = 1.
+Proof. vm_compute. eexists. split; [right; left; reflexivity|]. repeat split. Qed.
+
+(* batch_end_answers applies: batch 0 is running before the BFinish *)
+Example ex_end : exists B, find_batch (snd (run ex_cfg (firstn 3 ex_evs))) 0 = Some B /\ length (b_items B) = 3.
+Proof. vm_compute. eexists. split; reflexivity. Qed.
+
+(* a repeated key: everybody still unanswered gets the KeyError (ProtocolErr) *)
+Example ex_protocol :
+  map (filter is_done_obs) (fst (run ex_cfg [Burst [(0, None); (1, None); (2, None)]; BYield 0 1 (Val 7); BYield 0 1 (Val 8)])) =
+  [[]; [CallerDone 1 (Ret 7) 0%N]; [CallerDone 0 ProtocolErr 0%N; CallerDone 2 ProtocolErr 0%N]].
+Proof. vm_compute. reflexivity. Qed.
+
+(* the monitor accepts the model's own trace of the example and rejects a trace with a TaskDied *)
+Example ex_monitor :
+  ok_C04 (BCase ex_cfg ex_evs (map canon (fst (run ex_cfg ex_evs))) (waiting_callers (snd (run ex_cfg ex_evs)))) = true /\
+  ok_C04 (BCase ex_cfg [Call 1 None] [[TaskDied]] [0]) = false.
+Proof. vm_compute. split; reflexivity. Qed.
